@@ -101,10 +101,11 @@ const (
 	brkArray
 	brkNull     // (not in C08's list: used by C04 only)
 	brkCaseName // the pointer names an entry that differs from an existing one by letter case only
+	brkUnsetMember // the pointer goes one token further, into a member the target's type knows but the target does not hold
 	nBreaks
 )
 
-var breakNames = []string{"ok", "pointer-nowhere", "document-missing", "target-string", "target-number", "target-boolean", "target-array", "target-null", "pointer-case-variant"}
+var breakNames = []string{"ok", "pointer-nowhere", "document-missing", "target-string", "target-number", "target-boolean", "target-array", "target-null", "pointer-case-variant", "pointer-into-unset-member"}
 
 // breakRef rewrites a (correct) reference so that it is unresolvable in the given way.
 func breakRef(ref string, mode int) string {
@@ -135,6 +136,11 @@ func breakRef(ref string, mode int) string {
 		return docPart + "#/x-bad/A"
 	case brkNull:
 		return docPart + "#/x-bad/Z"
+	case brkUnsetMember:
+		if strings.Contains(ref, "#") {
+			return ref + "/not"
+		}
+		return ref + "#/not"
 	case brkCaseName:
 		i := strings.Index(ref, "#")
 		if i < 0 {
